@@ -106,6 +106,85 @@ def burst(h, rng):
                 h.emit([2, rng.choice(mem), []])
 
 
+def grow_edit(h, rng):
+    """edits only (for C12's base histories): an addressed interval grows through initialized_size with a block placed in the part
+    that becomes declared; returns lookups aimed at that part, to be asked at the end of every schedule"""
+    cands = [b for b in h.by_kind["ByteInterval"] if h.w.obj[b].section is not None and h.w.obj[b].address is not None
+             and h.w.obj[b].size < (1 << 16) and h.w.obj[b].address + h.w.obj[b].size + 64 < (1 << 64)]
+    if not cands:
+        return []
+    bn = rng.choice(cands)
+    bi = h.w.obj[bn]
+    sec = h.w.num[id(bi.section)]
+    old = bi.size
+    k = rng.choice([1, 2, 4, 9])
+    blocks = h.by_kind["CodeBlock"] + h.by_kind["DataBlock"]
+    if blocks:
+        b = rng.choice(blocks)
+        h.emit([2, b, [bn]])
+        h.emit([16, b, old + k - 1])
+        h.emit([15, b, 1])
+    h.emit([29, bn, old + k])
+    a = bi.address + old + k - 1
+    qs = [[40, sec, 10, 0, 0, 1, 1], [40, sec, 4, 0, a, a + 1, 1], [40, sec, 0, 0, a, a + 1, 1], [40, bn, 0, 0, a, a + 1, 1]]
+    for up in (h.w.num.get(id(bi.module)), h.w.num.get(id(bi.ir))):
+        if up is not None:
+            qs += [[40, up, 6, 0, a, a + 1, 1], [40, up, 4, 0, a, a + 1, 1], [40, up, 0, 0, a, a + 1, 1]]
+    return qs
+
+
+def grow_pattern(ctx, h, rng, methods, sig):
+    """An addressed interval of a section whose index is already built grows THROUGH initialized_size (not through size), with
+    content stored in the grown part (a block, a symbolic expression); then lookups aimed at the grown part at every scope.
+    Returns False when the oracle objects."""
+    from world import K
+    cands = [b for b in h.by_kind["ByteInterval"] if h.w.obj[b].section is not None and h.w.obj[b].address is not None
+             and h.w.obj[b].size < (1 << 16) and h.w.obj[b].address + h.w.obj[b].size + 64 < (1 << 64)]
+    if not cands:
+        return True
+    bn = rng.choice(cands)
+    bi = h.w.obj[bn]
+    sec = h.w.num[id(bi.section)]
+    # make sure the section index (and the interval's own) exists before the edit: replayed, not rebuilt
+    h.emit([40, sec, 10, 0, 0, 1, 1])
+    h.emit([40, sec, 4, 0, bi.address, bi.address + 1, 1])
+    old = bi.size
+    k = rng.choice([1, 2, 4, 9])
+    new = old + k + rng.choice([0, 1, 3])
+    h.emit([19, bn, old + k - 1, rng.randrange(1, 9)])                       # an expression in the part that is about to be declared
+    blocks = h.by_kind["CodeBlock"] + h.by_kind["DataBlock"]
+    if blocks and rng.random() < 0.7:
+        b = rng.choice(blocks)
+        h.emit([2, b, [bn]])
+        h.emit([16, b, old + rng.choice([0, k - 1])])
+        h.emit([15, b, rng.choice([1, 2])])
+    h.emit([29, bn, new])
+    ctx.count("grow_through_initialized_size")
+    a0 = bi.address + old
+    for scope in [bn, sec] + [x for x in (h.w.num.get(id(bi.module)), h.w.num.get(id(bi.ir))) if x is not None]:
+        for m in methods:
+            mm = QUERY_M[m]
+            if mm in (2, 3, 9) and scope != bn:
+                continue
+            if mm in (4, 5) and scope == bn:
+                continue
+            if mm in (6, 7) and h.w.kind[scope] not in ("Module", "IR"):
+                continue
+            if mm == 10 and h.w.kind[scope] != "Section":
+                continue
+            base = old if mm in (2, 3, 9) else a0
+            for (a, b) in ((base + k - 1, base + k), (base, base + k + 4), (base - 1, base + 1)):
+                it = [40, scope, mm, 0, max(0, a), b, 1]
+                rep = h.emit(it)
+                bad = world.oracle_query(h.w, it, rep)
+                if bad:
+                    h.problems.append((len(h.items) - 1, bad))
+                    ctx.add("oracle", "%s:m%d" % (sig, mm), "lookup %s after growing an interval through initialized_size: %s" % (it, "; ".join(bad[:2])),
+                            {"items": h.items, "problems": bad[:6]})
+                    return False
+    return True
+
+
 def lookup_history(ctx, g, rng, length, weights, methods, sig, per_step=3, pool=None):
     h = worldgen.Hist(g, rng, {"setm": EDIT_SETM + ["pop"], "pool": pool} if pool else {"setm": EDIT_SETM + ["pop"]})
     h.setup_pool()
@@ -115,8 +194,12 @@ def lookup_history(ctx, g, rng, length, weights, methods, sig, per_step=3, pool=
     if rng.random() < 0.5:
         judged_queries(ctx, h, rng, methods, 4, sig)          # build the lazy indexes early, so later edits are replayed, not rebuilt
     for _ in range(length):
-        if rng.random() < 0.12:
+        r = rng.random()
+        if r < 0.12:
             burst(h, rng)
+        elif r < 0.16:
+            if not grow_pattern(ctx, h, rng, methods, sig):
+                return h
         else:
             edit_step(h, rng, weights)
         if rng.random() < freq:
